@@ -393,8 +393,10 @@ class Ctx:
         ev = {"property_id": self.prop, "tier": self.tier, "seed": self.seed, "level": self.level,
               "coverage": cov, "assumptions": self.assumptions, "wall_s": round(time.time() - self.t0, 2),
               "violations": self.violations}
-        os.makedirs(os.path.join(VERIF, "evidence"), exist_ok=True)
-        json.dump(ev, open(os.path.join(VERIF, "evidence", self.prop + ".json"), "w"), indent=1, ensure_ascii=False)
+        # evidence of a run against a scratch worktree (seeded-change testing) never overwrites the committed evidence
+        evdir = os.path.join(VERIF, "evidence") if REPO == "/repo" else os.path.join(scratch_root(), "evidence")
+        os.makedirs(evdir, exist_ok=True)
+        json.dump(ev, open(os.path.join(evdir, self.prop + ".json"), "w"), indent=1, ensure_ascii=False)
 
     def finish(self):
         sys.exit(1 if self.violations else 0)
